@@ -147,8 +147,51 @@ class SymStr(str):
     def isspace(self) -> bool:  # type: ignore[override]
         return bool(self.chars) and all(cur().branch(SymStr.is_space(c)) for c in self.chars)
 
+    # -- character classes, exact for every code point: the range tables are computed from the running
+    #    interpreter's own str methods (so `c.isdigit()` is true for U+00B2, U+0663, U+FF12 ... as in Python)
+    _class_ranges: dict = {}
+
+    @staticmethod
+    def class_ranges(name: str) -> list:
+        r = SymStr._class_ranges.get(name)
+        if r is None:
+            r, lo, pred = [], None, getattr(str, name)
+            for cp in range(0x110000):
+                if pred(chr(cp)):
+                    if lo is None:
+                        lo = cp
+                elif lo is not None:
+                    r.append((lo, cp - 1))
+                    lo = None
+            if lo is not None:
+                r.append((lo, 0x10FFFF))
+            SymStr._class_ranges[name] = r
+        return r
+
+    def _all_in_class(self, name: str) -> bool:
+        if not self.chars:
+            return False
+        for c in self.chars:
+            if isinstance(c, int):
+                if not getattr(str, name)(chr(c)):
+                    return False
+                continue
+            rs = SymStr.class_ranges(name)
+            if not cur().branch(z3.Or([(c == lo) if lo == hi else z3.And(c >= lo, c <= hi) for lo, hi in rs])):
+                return False
+        return True
+
     def isdigit(self) -> bool:  # type: ignore[override]
-        return bool(self.chars) and all(cur().branch(z3.And(c >= 48, c <= 57)) for c in self.chars)
+        return self._all_in_class("isdigit")
+
+    def isdecimal(self) -> bool:  # type: ignore[override]
+        return self._all_in_class("isdecimal")
+
+    def isnumeric(self) -> bool:  # type: ignore[override]
+        return self._all_in_class("isnumeric")
+
+    def isalnum(self) -> bool:  # type: ignore[override]
+        return self._all_in_class("isalnum")
 
     def startswith(self, prefix: Any, *a: Any) -> bool:  # type: ignore[override]
         if a or not isinstance(prefix, str):
@@ -179,11 +222,9 @@ class SymStr(str):
         return SymStr([z3.If(z3.And(c >= 97, c <= 122), c - 32, c) for c in self.chars])
 
     def isalpha(self) -> bool:  # type: ignore[override]
-        self._ascii_only("isalpha")
-        return bool(self.chars) and all(
-            cur().branch(z3.Or(z3.And(c >= 65, c <= 90), z3.And(c >= 97, c <= 122))) for c in self.chars)
+        return self._all_in_class("isalpha")
 
-    split = rsplit = replace = find = index = count = isalnum = join = partition = _unmodelled  # type: ignore[assignment]
+    split = rsplit = replace = find = index = count = join = partition = _unmodelled  # type: ignore[assignment]
     translate = casefold = title = swapcase = zfill = center = ljust = rjust = encode = format = splitlines = _unmodelled  # type: ignore[assignment]
 
     def concrete(self, m: Any) -> str:
